@@ -143,6 +143,14 @@ def r5_r6_connection(ck, cx, cls):
         gets = [e for e in p.ev if e.kind == 'call' and callee_name(e.node) == 'getTransaction']
         ck.ob('R5', f.qn, 'every pending deferred is removed and errback-ed', bool(errs) and bool(gets),
               detail='pending-not-failed', loc=cx.floc(f), message='connectionLost does not fail the pending deferreds')
+        # the flag is down before the first errback runs: an errback may re-issue a request on this protocol, which
+        # must get a failed deferred (R6) instead of being registered after the snapshot and never fired
+        i_flag = _index(p.ev, lambda e: e.kind == 'assign' and U(e.a) == 'self._connected' and is_const(e.node.value, False))
+        i_err = _index(p.ev, lambda e: e.kind == 'call' and callee_name(e.node) == 'errback')
+        if i_err is not None:
+            ck.ob('R5', f.qn, 'connected flag cleared before the first pending deferred is failed', i_flag is not None and i_flag < i_err,
+                  detail='flag-cleared-after-errback', loc=cx.floc(f),
+                  message='connectionLost fails the pending deferreds while the protocol still reports itself connected: a request re-issued from an errback is registered on the dead connection and never fires')
         for e in errs:
             ck.ob('R5', f.qn, 'fails with a ConnectionException', 'ConnectionException' in U(e.node), detail='errback-arg', loc=cx.floc(f))
     ck.ob('R5', f.qn, 'connectionLost walks the pending requests', loops > 0, detail='no-loop', loc=cx.floc(f))
